@@ -4,6 +4,10 @@ from fractions import Fraction
 
 from common import fr, qs, hexf, run_impl, run_model, coq_eval
 import exprs
+
+
+def Q_list(xs):
+    return "(" + " ".join(qs(fr(x)) for x in xs) + ")"
 from exprs import U
 
 LEVEL = "proof"
@@ -82,6 +86,10 @@ def run(ctx):
         lines.append("(peval %s)" % exprs.p_sexp(c["e"]))
         lines.append("(pinfo %s (%s))" % (exprs.p_sexp(c["e"]), " ".join(str(k) for k in c["keys"])))
     mod = run_model(lines)
+    # the Coq model of round_zeros on the coefficients the implementation held before rounding
+    rz_idx = [i for i, c in enumerate(cases) if "round" in c and "ok" in impl[i] and impl[i]["ok"].get("rounded_from") is not None]
+    rz_mod = run_model(["(roundz %s %s)" % (qs(fr(1e-5 if cases[i]["round"] == "default" else cases[i]["round"])), Q_list(impl[i]["ok"]["rounded_from"])) for i in rz_idx])
+    RZ = dict(zip(rz_idx, rz_mod))
     for idx, c in enumerate(cases):
         m, minfo = mod[2 * idx], mod[2 * idx + 1]
         r = impl[idx]
@@ -152,6 +160,13 @@ def run(ctx):
             b4 = [fr(x) for x in ro["rounded_from"]]
             af = [fr(x) for x in ro["rounded"]]
             want = [Fraction(0) if abs(x) < fr(th) else x for x in b4]
+            mrz = RZ.get(idx)
+            if isinstance(mrz, str) or mrz is None:
+                ctx.infra_fail("extracted round_zeros model failed: " + str(mrz)[:80])
+                continue
+            if [Fraction(v) for v in mrz] != want:
+                ctx.infra_fail("harness and Coq model of round_zeros disagree on %s" % c["e"])
+                continue
             if af != want or ro["rounded_dmin"] != ro["dmin"]:
                 ctx.fail("history", c, "round_zeros(%r) turned coefficients %s into %s (expected %s)" % (c["round"], [float(x) for x in b4][:8], [float(x) for x in af][:8], [float(x) for x in want][:8]))
                 continue
@@ -288,7 +303,8 @@ TRUSTED = ["Coq 8.16.1 kernel incl. vm_compute", "extraction (ExtrOcamlBasic, Ex
 ASSUME = ["floats are compared with the exact model under the normwise budget 64*m*u*B (DESIGN 4.4); integer-valued histories under the same (tiny) budget"]
 LEVEL_TEXT = ("Universally quantified Coq theorems about the executable LPoly model (Props/C09.v) give the ring laws for every "
               "length, lowest power, window and history; the model is tied to /repo by running both on generated operation "
-              "histories on every invocation (normwise rounding budget 64*m*u*B, also for integer data).")
+              "histories on every invocation (normwise rounding budget 64*m*u*B, also for integer data), with coefficient look-up, "
+              "alignment, point evaluation, 2-norm and round_zeros (model round_zeros_q, 3 theorems) read from the result object.")
 LEVEL_NOTE = ("Trusted: Coq kernel + vm_compute, extraction directives, driver.ml, the Python harness, numpy as executor. "
               "Axioms: see evidence (stdlib real-number axioms only where R is used). The model is hand-written; agreement with the "
               "code is checked on generated inputs, not proved.")
